@@ -107,6 +107,29 @@ CHECKS = {
         note='Frame names are read from the variable names; chain composition is first order (as the published '
              'tables are); Fraction(repr(float)) recovers the typed decimals. Trusted base: CPython fractions.',
         design='§5/C11'),
+    'C13': dict(
+        text='Both MGA transformations on zones 46-59 x easting/northing lattice (lat -60..-5) x heights {absent,-100,0,603.3466,3000}, '
+             'a structural set of other zones down to lat -80, and zone-boundary points whose image changes natural zone; each '
+             'result compared with the definition rebuilt from independent oracles (exact TM inverse, closed forms in 40 digits, '
+             'exact 7-parameter formula, exact TM forward in the natural zone); depth 2 there-and-back (0.3 mm / 0.2 mm); '
+             'covariance over a PSD lattice and 3x1 columns against R2^T(J(R1 S R1^T (+) Q)J^T)R2.',
+        note='Only southern grid coordinates are accepted by the functions; agreement asserted at the returned resolution (0.2 mm).',
+        design='§5/C13'),
+    'C14': dict(
+        text='vincinv_utm / vincdir_utm / line_sf on hemispheres x 7 zones x 6 eastings x latitudes -79..83 x 10-18 bearings x '
+             'lengths {1 m,100 m,10 km,100 km}, second point in the same zone or handed over in the adjacent zone; oracle: exact TM '
+             'positions/convergence/scale, exact inverse geodesic by Newton on the exact direct geodesic; depth 2 (direct with '
+             'the inverse output reproduces point 2 in zone 1 within 1 mm); LSF within the oracle min/max of k along the line '
+             '(3e-7) and its Simpson mean (5e-7).',
+        note='Grid-bearing tolerance includes the angle 5 um subtends over the line (positions are returned rounded to 1e-11 deg).',
+        design='§5/C14'),
+    'C15': dict(
+        text='Explicit-state BFS of the representation graph {CoordCart, CoordGeo x 6 notations, CoordTM} under .geo/.tm/.cart/'
+             '.notation for (GRS80,UTM), (ANS,ISG), (ANS,UTM), from a position x height-combination lattice injected in every '
+             'representation, depth 3 (4 thorough): each edge equals the functional API bit for bit, heights transported, '
+             'N = h - H, and every reached state denotes the start position within 0.3 mm by independent oracles.',
+        note='"Any reached state denotes the start position" contains every closed chain of the statement.',
+        design='§5/C15'),
 }
 
 ALL = ['C%02d' % i for i in range(1, 21)]
